@@ -248,7 +248,7 @@ func init() {
 			if prop == "C14" || prop == "C16" {
 				// a node following a scripted committee: syncs arriving while its commit callback runs (C14), shutdown while the
 				// transport is slow inside the send of its COMMIT (C16)
-				floors := map[string]int{"C14 syncs pending while the commit callback runs": 40, "C14 stale batches judged": 20}
+				floors := map[string]int{"C14 syncs pending while the commit callback runs": 40, "C14 stale batches judged": 20, "C14 stale syncs to an idle node judged": 3}
 				if prop == "C16" {
 					floors = map[string]int{"C16 shutdowns with a held COMMIT send": 8, "C16 shutdowns while the commit callback waits on its context": 4}
 				}
